@@ -114,6 +114,9 @@ Definition inclb (a b : list lock) : bool := forallb (fun x => existsb (Nat.eqb 
     counts as requesting every lock the main loop may take), and a flag that is false when something is
     awaited while a lock may be held, when the translator emitted [SUnknown], or when a loop body can
     leave more locks held than it started with *)
+Definition edge_dec : forall x y : edge, {x = y} + {x <> y}.
+Proof. decide equality; apply Nat.eq_dec. Defined.
+
 Section Ana.
 Variable mainlocks : list lock.   (* every lock the main loop may take *)
 
@@ -127,11 +130,11 @@ Fixpoint ana (s : stmt) (M : list lock) : list lock * list edge * bool :=
   | SSkip => (M, [], true)
   | SSeq a b =>
       match ana a M with
-      | (M1, E1, o1) => match ana b M1 with (M2, E2, o2) => (M2, E1 ++ E2, o1 && o2) end
+      | (M1, E1, o1) => match ana b M1 with (M2, E2, o2) => (M2, nodup edge_dec (E1 ++ E2), o1 && o2) end
       end
   | SAlt a b =>
       match ana a M with
-      | (M1, E1, o1) => match ana b M with (M2, E2, o2) => (M1 ++ M2, E1 ++ E2, o1 && o2) end
+      | (M1, E1, o1) => match ana b M with (M2, E2, o2) => (nodup Nat.eq_dec (M1 ++ M2), nodup edge_dec (E1 ++ E2), o1 && o2) end
       end
   | SLoop a =>
       match ana a M with
@@ -175,9 +178,10 @@ Definition touches (v : lock) (e : edge) : bool := Nat.eqb (fst e) v || Nat.eqb 
 
 (** remove node [v]: keep the edges that do not touch it and connect each predecessor to each successor *)
 Definition bypass (v : lock) (E : list edge) : list edge :=
-  filter (fun e => negb (touches v e)) E
-  ++ flat_map (fun p => map (fun s => (fst p, snd s)) (filter (fun e => Nat.eqb (fst e) v) E))
-              (filter (fun e => Nat.eqb (snd e) v) E).
+  nodup edge_dec
+    (filter (fun e => negb (touches v e)) E
+     ++ flat_map (fun p => map (fun s => (fst p, snd s)) (filter (fun e => Nat.eqb (fst e) v) E))
+                 (filter (fun e => Nat.eqb (snd e) v) E)).
 
 Definition selfloop (v : lock) (E : list edge) : bool :=
   existsb (fun e => Nat.eqb (fst e) v && Nat.eqb (snd e) v) E.
@@ -190,7 +194,7 @@ Fixpoint elim (V : list lock) (E : list edge) : bool :=
 
 Definition nodes (E : list edge) : list lock := map fst E ++ map snd E.
 
-Definition acyclicb (E : list edge) : bool := elim (nodes E) E.
+Definition acyclicb (E : list edge) : bool := elim (nodup Nat.eq_dec (nodes E)) (nodup edge_dec E).
 
 (** the rank that [elim] constructs (used by the proofs and printed by the check) *)
 Definition rank_step (v : lock) (E : list edge) (r' : lock -> nat) : lock -> nat :=
@@ -204,7 +208,7 @@ Fixpoint rank_of (V : list lock) (E : list edge) : lock -> nat :=
   | v :: V' => rank_step v E (rank_of V' (bypass v E))
   end.
 
-Definition inferred_rank (E : list edge) : lock -> nat := rank_of (nodes E) E.
+Definition inferred_rank (E : list edge) : lock -> nat := rank_of (nodup Nat.eq_dec (nodes E)) (nodup edge_dec E).
 
 (** * Obligations over a table of named programs *)
 
@@ -214,10 +218,10 @@ Definition table := list (string * stmt).
 Definition main_stmt (main : string) (t : table) : stmt :=
   match find (fun e => String.eqb (fst e) main) t with Some e => snd e | None => SUnknown end.
 
-Definition mainlocks_of (main : string) (t : table) : list lock := acq_of (main_stmt main t).
+Definition mainlocks_of (main : string) (t : table) : list lock := nodup Nat.eq_dec (acq_of (main_stmt main t)).
 
 Definition table_edges (main : string) (t : table) : list edge :=
-  flat_map (fun e => edges_of (mainlocks_of main t) (snd e)) t.
+  let ml := mainlocks_of main t in flat_map (fun e => edges_of ml (snd e)) t.
 
 Definition held_before_acyclic (main : string) (t : table) : bool := acyclicb (table_edges main t).
 
@@ -227,12 +231,13 @@ Definition no_reentrant (main : string) (t : table) : bool :=
 (** no lock across a wait on an arbitrary task, nothing unclassified, loop bodies balanced; the main loop
     exists and waits for no task of the server *)
 Definition flags_ok (main : string) (t : table) : bool :=
-  forallb (fun e => flag_of (mainlocks_of main t) (snd e)) t
-  && negb (has_wait (main_stmt main t)).
+  let ml := mainlocks_of main t in
+  forallb (fun e => flag_of ml (snd e)) t && negb (has_wait (main_stmt main t)).
 
 Definition table_ok (main : string) (t : table) : bool :=
   held_before_acyclic main t && no_reentrant main t && flags_ok main t.
 
 (** per-program report, printed by the check to name the failing call sites *)
 Definition report (main : string) (t : table) : list (string * list edge * bool) :=
-  map (fun e => (fst e, edges_of (mainlocks_of main t) (snd e), flag_of (mainlocks_of main t) (snd e))) t.
+  let ml := mainlocks_of main t in
+  map (fun e => match ana ml (snd e) [] with (_, E, o) => (fst e, nodup edge_dec E, o) end) t.
